@@ -357,3 +357,33 @@ def preempt_oracle(case, obs):
     if f.get('custom') is not None and sorted(f['custom']) != sorted(ref.live.values()):
         v.append(f'{where}: registered in code {sorted(f["custom"])}, expected {sorted(ref.live.values())}')
     return v
+
+
+# ------------------------------------------------------------------ call forms + hits (judged by the oracle only)
+FORMS = ['omitted', 'none', 'empty', 'nonempty']
+
+
+def gen_hits(rng):
+    regs = []
+    for _ in range(rng.randint(1, 4)):
+        path, line = rng.choice(LOCS)
+        regs.append({'path': path, 'line': line,
+                     'form': {k: rng.choice(FORMS) for k in ('args', 'watches', 'metrics')}})
+    un = [i for i in range(len(regs)) if rng.random() < 0.25]
+    return {'kind': 'hits', 'regs': regs, 'unregister': un}
+
+
+def hits_oracle(case, obs):
+    if obs.get('bench_error'):
+        return []
+    v = ['%s' % r for r in obs.get('raised', [])]
+    live = [r for i, r in enumerate(case['regs']) if i not in case.get('unregister', [])]
+    for loc, h in sorted((obs.get('hits') or {}).items()):
+        here = [r for r in live if '%s:%d' % (r['path'], r['line']) == loc]
+        if h['snapshots'] != len(here):
+            v.append(f'one hit of {loc}: {h["snapshots"]} snapshot(s) handed to the push service; '
+                     f'{len(here)} registration(s) are live there (call forms: {[r["form"] for r in here]})')
+        want_w = sum(1 for r in here if r['form'].get('watches') == 'nonempty')
+        if h['snapshots'] == len(here) and h['watch_results'] != want_w:
+            v.append(f'one hit of {loc}: {h["watch_results"]} watch result(s), {want_w} registration(s) there have a watch')
+    return v[:4]
